@@ -251,35 +251,11 @@ func containsWord(text, w string, fold bool) bool {
 	}
 }
 
-// echoEqual: are a and b equal once every whole-word occurrence of w in a, and of w or f in b, is
-// replaced by the same placeholder?
+// echoEqual: are a and b equal up to the spellings w and f, i.e. once every occurrence of either
+// (also inside a longer word: table ttl prints ttl_final) is replaced by the same placeholder?
 func echoEqual(a, b, w, f string) bool {
-	mask := func(text string, words ...string) string {
-		for _, x := range words {
-			var sb strings.Builder
-			for from := 0; ; {
-				i := strings.Index(text[from:], x)
-				if i < 0 {
-					sb.WriteString(text[from:])
-					break
-				}
-				i += from
-				before, _ := utf8.DecodeLastRuneInString(text[:i])
-				after, _ := utf8.DecodeRuneInString(text[i+len(x):])
-				if (i == 0 || !isWordRune(before)) && (i+len(x) == len(text) || !isWordRune(after)) {
-					sb.WriteString(text[from:i])
-					sb.WriteString("\x00")
-					from = i + len(x)
-				} else {
-					sb.WriteString(text[from : i+1])
-					from = i + 1
-				}
-			}
-			text = sb.String()
-		}
-		return text
-	}
-	return mask(a, w) == mask(b, w, f)
+	r := strings.NewReplacer(w, "\x00", f, "\x00")
+	return r.Replace(a) == r.Replace(b)
 }
 
 // containsWordStart: does w occur in text, case-insensitively, at the start of a word?
@@ -401,8 +377,8 @@ func prepare(src, baseExplain string, soft, freeze bool, probe func(string) stri
 			// does not occur in the baseline EXPLAIN as a whole word it cannot be echoed.  If it
 			// does occur, that may be a coincidence with EXPLAIN's own vocabulary ("SYSTEM
 			// query", "Literal NULL", "AlterCommand UPDATE"): probe by flipping this one token.
-			// Same EXPLAIN: keyword.  EXPLAIN differs exactly by the flipped spelling in places
-			// where the original spelling stood: a name (Function IF, alias KEY), left alone.
+			// Same EXPLAIN: keyword.  EXPLAIN differs only by the flipped spelling standing where
+			// the original spelling stood: a name (Function IF, alias KEY, table ttl), left alone.
 			// Any other difference: flipped anyway, so that the variants report it.
 			t.flippable = !containsWord(baseExplain, t.text, false)
 			if !t.flippable && probe != nil {
